@@ -198,7 +198,7 @@ impl Lowerer<'_, '_> {
                         .iter()
                         .zip(&mir_signature.parameter_types)
                         .filter_map(|(def, ty)| {
-                            let ty = lowerer.lower_type(*ty)?;
+                            let ty = lowerer.lower_parameter_type(*ty)?;
                             let mir::VarKind::Explicit(x) = def.kind else {
                                 ice!()
                             };
@@ -387,17 +387,21 @@ impl Lowerer<'_, '_> {
             kind: VarKind::Context,
         };
 
-        // Filter out any zero-sized arguments
-        let args: Vec<_> = args
+        // Filter out any zero-sized arguments, except for zero-sized
+        // registered types. Rust passes those by pointer, so they keep their
+        // place in the signature and get a dangling pointer.
+        let args: Vec<Operand> = args
             .into_iter()
             .zip(mir_signature.parameter_types)
             .filter_map(|(v, t)| {
-                self.layout_of(t).filter(|l| !l.is_zero_sized()).map(|_| v)
+                if self.is_zero_sized_runtime_type(t) {
+                    return Some(self.dangling_pointer(t));
+                }
+                self.layout_of(t)
+                    .filter(|l| !l.is_zero_sized())
+                    .map(|_| self.var(v).into())
             })
             .collect();
-
-        // Transform all the arguments to LIR.
-        let args = args.into_iter().map(|v| self.var(v).into()).collect();
 
         let func = self.ctx.type_info.full_name(&func);
 
@@ -536,6 +540,12 @@ impl Lowerer<'_, '_> {
             // but if it is a DynVal, we have to ensure that the value is stored on a
             // stack slot and that we pass a pointer to it to the function.
             if !dyn_vals[i] {
+                if self.is_zero_sized_runtime_type(ty) {
+                    args.push(self.dangling_pointer(ty));
+                    parameters
+                        .push((i.to_string().into(), IrType::Pointer));
+                    continue;
+                }
                 let Some(ty) = self.lower_type(ty) else {
                     continue;
                 };
@@ -1111,6 +1121,30 @@ impl Lowerer<'_, '_> {
             label,
             instructions: Vec::new(),
         })
+    }
+
+    /// Whether this is a zero-sized type registered by the host
+    ///
+    /// Rust passes values of registered types by pointer, also when they are
+    /// zero-sized. Such a parameter therefore takes up a place in the
+    /// signature of a function, unlike other zero-sized parameters.
+    fn is_zero_sized_runtime_type(&mut self, ty: TyRef) -> bool {
+        matches!(self.ctx.type_info.ty_pool.get(ty), Ty::Runtime(_))
+            && self.layout_of(ty).is_some_and(|l| l.is_zero_sized())
+    }
+
+    /// The type of a function parameter, if it is passed at all
+    fn lower_parameter_type(&mut self, ty: TyRef) -> Option<IrType> {
+        if self.is_zero_sized_runtime_type(ty) {
+            return Some(IrType::Pointer);
+        }
+        self.lower_type(ty)
+    }
+
+    /// A non-null, aligned pointer that is valid for zero-sized reads
+    fn dangling_pointer(&mut self, ty: TyRef) -> Operand {
+        let align = self.layout_of(ty).map_or(1, |l| l.align());
+        Operand::Value(crate::lir::IrValue::Pointer(align))
     }
 
     fn lower_type(&mut self, ty: TyRef) -> Option<IrType> {
